@@ -404,6 +404,11 @@ class TerminalDevice(Device):
                 self.impl.terminal_print('? ')
 
             string = self.impl.terminal_input(same_line)
+            if string is None:
+                self._device_error(
+                    error_code=Device.Error.OP_FAILED,
+                    error_msg='No input available',
+                )
             success = push_vars(string, var_types)
             if success:
                 break
